@@ -276,9 +276,9 @@ inductive HeadRes
   | ok (h : Head) (rest : Bytes)
 deriving DecidableEq
 
-/-- fields with side effects outside C03 (cookie parsing, 100-continue) are outside the domain -/
+/-- fields with side effects outside C03 (cookie parsing) are outside the domain -/
 def fieldsInDomain (fs : List Field) : Bool :=
-  fs.all fun f => ! eqCI f.name nCookie && ! eqCI f.name nExpect
+  fs.all fun f => ! eqCI f.name nCookie
 
 def parseHead (b : Bytes) : HeadRes :=
   match takeLine b with
